@@ -1233,6 +1233,7 @@ func init() {
 			f.Write(ff)
 			f.Close()
 			out, crashed, failed := c23RunChild(t, []string{"-test.run", "^TestVerifReplay$", "-test.v", "-test.timeout", "580s"}, "VERIF_REPLAY="+f.Name(), "VERIF_FAIL_DIR=")
+			out = strings.ReplaceAll(out, "--- FAIL", "--- child-FAIL") // the driver greps the parent's output for failed replay names
 			if !failed {
 				t.Logf("replay child ok: %s", c23Tail(out, 600))
 				return
